@@ -652,6 +652,20 @@ impl Node {
         }
         debug!("Payment is valid for record {pretty_key}");
 
+        // the quotes issued by this node must be for the address being stored,
+        // a payment made for some other content does not pay for this record
+        let quoted_content = address.as_xorname().unwrap_or_default();
+        if payment
+            .quotes_by_peer(&self_peer_id)
+            .iter()
+            .any(|quote| quote.content != quoted_content)
+        {
+            warn!("Payment quote was not issued for record {pretty_key}");
+            return Err(Error::InvalidRequest(format!(
+                "Payment quote was not issued for record {pretty_key}"
+            )));
+        }
+
         // verify quote expiration
         if payment.has_expired() {
             warn!("Payment quote has expired for record {pretty_key}");
